@@ -37,6 +37,8 @@ pub struct Fixture {
     max_depth: u32,
     n_ofs: usize,
     n_ref: usize,
+    /// ids of deltas that contain a copy instruction with encoded size 0 (= 0x10000 bytes)
+    size0_copy_deltas: Vec<ObjectId>,
 }
 
 /// sliding-window file whose size grows strictly with the version (pack order == version order, distinct sizes)
@@ -90,7 +92,16 @@ fn finish_fixture(name: &'static str, dir: &Path, has_midx: bool) -> Fixture {
             .unwrap_or_else(|e| vkit::machinery!("cannot open object store {}: {e}", objects.display())),
         )
     });
-    Fixture { name, objects, stores, packs, bundles, oracle, alphabet, has_midx, all_ref: n_ofs == 0 && n_ref > 0, max_depth, n_ofs, n_ref }
+    let mut size0_copy_deltas = Vec::new();
+    for p in &packs {
+        let data = std::fs::read(&p.pack).unwrap_or_else(|e| vkit::machinery!("read pack: {e}"));
+        for e in p.entries.iter().filter(|e| e.raw_type >= 6) {
+            if fx::size0_copies(&data, e.offset) > 0 {
+                size0_copy_deltas.push(e.oid);
+            }
+        }
+    }
+    Fixture { name, objects, stores, packs, bundles, oracle, alphabet, has_midx, all_ref: n_ofs == 0 && n_ref > 0, max_depth, n_ofs, n_ref, size0_copy_deltas }
 }
 
 /// Pick the request alphabet from what git actually packed (most interesting first).
@@ -179,6 +190,15 @@ fn select_roles(packs: &[PackInfo]) -> Vec<Role> {
     if let Some((pi, e)) = all.iter().find(|(_, e)| e.kind == Kind::Commit && e.raw_type < 6) {
         push(&mut roles, "commit", *pi, e);
     }
+    // small fixtures: fill up with the remaining deltas and a plain tree
+    if roles.len() < 6 {
+        for (pi, e) in all.iter().filter(|(_, e)| e.raw_type >= 6) {
+            push(&mut roles, "other-delta", *pi, e);
+        }
+        if let Some((pi, e)) = all.iter().find(|(_, e)| e.kind == Kind::Tree && e.raw_type < 6) {
+            push(&mut roles, "tree", *pi, e);
+        }
+    }
     roles
 }
 
@@ -222,6 +242,25 @@ fn build_fixtures(run: &Run) -> Vec<Fixture> {
             vkit::machinery!("multi-pack-index was not written");
         }
         out.push(finish_fixture("multi-midx", &dir, true));
+    }
+    // G: ~200 KiB incompressible blobs differing by small insertions: git emits copy instructions of the maximum
+    //    size 0x10000, which are encoded as size 0
+    {
+        let dir = vkit::scratch::Dir::new("c08-huge").keep();
+        vkit::git::init(&dir);
+        let v0 = vkit::enumerate::lcg_bytes(200 * 1024, 0x4075e);
+        let mut v1 = v0.clone();
+        v1.splice(100_000..100_000, b"<<inserted near the middle>>".iter().copied());
+        let mut v2 = v1.clone();
+        let at = v2.len() - 3000;
+        v2.splice(at..at, b"<<inserted near the end>>".iter().copied());
+        for (i, v) in [&v0, &v1, &v2].into_iter().enumerate() {
+            fx::write(&dir, "huge.bin", v);
+            fx::write(&dir, &format!("note{i}.txt"), format!("note {i}\n").repeat(20 + i).as_bytes());
+            fx::commit_all(&dir, &format!("huge{i}"));
+        }
+        git(&dir, &["repack", "-adfq", "--window=10", "--depth=5"]);
+        out.push(finish_fixture("huge-64k-copies", &dir, false));
     }
     // F: twin packs with identical layout (same delta offsets in different packs -> cache keys must include the pack id)
     {
@@ -723,7 +762,7 @@ pub fn run(run: &'static Run) {
     let k_long = 6usize;
     let max_len = run.pick(3usize, 4);
     run.rule(format!(
-        "fixtures: 6 git-built repositories (ofs/ref deltas, --depth 1/2/3/4/5, --window 0/2/10, three packs + multi-pack-index, twin packs with equal delta offsets); \
+        "fixtures: 7 git-built repositories (ofs/ref deltas, --depth 1/2/3/4/5, --window 0/2/10, three packs + multi-pack-index, twin packs with equal delta offsets, three ~200 KiB incompressible blobs differing by small insertions whose deltas hold copy instructions of encoded size 0 = 0x10000 bytes); \
          request alphabet per fixture = first {k} of [chain tip, chain middle, chain base, sibling delta sharing a delta ancestor, deltas in other packs, delta of the ~67 KB blob, tree delta, tip's parent, commit] (see `alphabets`); \
          histories = ALL request sequences with repetition of length 1..={max_len} (sub `reads`, full cache matrix) and of length {} over the first {k_long} objects (sub `reads-long`, reduced matrix: StaticLinkedList<2> x all limits, MemoryCappedHashmap(s0+s1), odb: those two x object cache {{unset, w0+w1}}), each on one fresh cache and one reused output buffer; \
          caches: Never, StaticLinkedList<1|2|64> x mem_limit {{0,1,s0-1,s0,s0+s1-1,s0+s1,sum}} (s0<=s1 smallest deltified alphabet objects), lru::MemoryCappedHashmap caps {{1,s0-1,s0,s0+s1,sum,64MiB}}, \
@@ -757,6 +796,11 @@ pub fn run(run: &'static Run) {
     run.require("offset deltas and reference deltas both occur", fxs.iter().any(|f| f.n_ofs > 0) && fxs.iter().any(|f| f.all_ref));
     run.require("every fixture has >= 4 request objects incl. a delta", fxs.iter().all(|f| f.alphabet.len() >= 4 && f.alphabet.iter().take(k).any(|r| r.delta)));
     run.require("multi fixture has 3 packs", fxs.iter().any(|f| f.has_midx && f.packs.len() == 3));
+    run.require(
+        "a requested delta contains a copy instruction of encoded size 0 (= 0x10000 bytes)",
+        fxs.iter().any(|f| f.alphabet.iter().take(k_long.min(k)).any(|r| r.delta && f.size0_copy_deltas.contains(&r.oid))),
+    );
+    run.cov("deltas_with_size0_copy_instructions", fxs.iter().map(|f| f.size0_copy_deltas.len()).sum::<usize>());
 
     let configs = |f: &Fixture, kk: usize, reduced: bool| -> Vec<(Access, PackCache, ObjCache)> {
         let mut configs: Vec<(Access, PackCache, ObjCache)> = Vec::new();
